@@ -109,6 +109,7 @@ func cmdTermCamp(args []string) {
 	stride := fs.Int("stride", 1, "take every stride-th prefix")
 	nedits := fs.Int("edits", 2000, "random edits")
 	klen := fs.Int("klen", 3, "token-kind sequences up to this length (0 = none)")
+	nspecial := fs.Int("special", 40, "token-start positions per file at which each special character is injected")
 	deadline := fs.Duration("deadline", 5*time.Second, "per-run deadline")
 	par := fs.Int("par", 16, "parallel runs")
 	single := fs.String("single", "", "run just this input file (replay)")
@@ -199,7 +200,38 @@ func cmdTermCamp(args []string) {
 				emit("prefix", t[:n])
 			}
 		}
-		alphabet := []byte("%{}<>:;|'\"/*$ \n\tab01-\\@")
+		// systematic injection of unusual characters at token starts: non-ASCII digits and letters, spaces that are
+		// not blanks, byte-order mark, invalid UTF-8, NUL, CR
+		specials := []string{"\u0663", "\u0967", "\uff11", "\u00b2", "\u00e9", "\u03bb", "\u4e2d", "\u00a0", "\u2028", "\ufeff", "\xff", "\x80", "\xc3", "\x00", "\r", "\r\n", "\v", "\f"}
+		for ti, t := range texts {
+			var starts []int
+			for p := 1; p < len(t); p++ {
+				if (t[p-1] == ' ' || t[p-1] == '\n' || t[p-1] == '\t') && t[p] != ' ' && t[p] != '\n' {
+					starts = append(starts, p)
+				}
+			}
+			r.Shuffle(len(starts), func(i, j int) { starts[i], starts[j] = starts[j], starts[i] })
+			nmax := *nspecial
+			if ti > 3 {
+				nmax = nmax / 4
+			}
+			if len(starts) > nmax {
+				starts = starts[:nmax]
+			}
+			for _, p := range starts {
+				for _, sp := range specials {
+					var b []byte
+					b = append(b, t[:p]...)
+					b = append(b, sp...)
+					if r.Intn(2) == 0 {
+						b = append(b, ' ')
+					}
+					b = append(b, t[p:]...)
+					emit("special", b)
+				}
+			}
+		}
+		alphabet := []byte("%{}<>:;|'\"/*$ \n\tab01-\\@\xd9\xa3\xc3\xa9\xff\x00\r")
 		for k := 0; k < *nedits && len(texts) > 0; k++ {
 			t := append([]byte{}, texts[r.Intn(len(texts))]...)
 			ne := 1 + r.Intn(3)
